@@ -12,64 +12,6 @@
 From CSL Require Import Base.Prelude Cbor.Head Cbor.Item Fixed.CborEv Fixed.FixedTx.
 Local Open Scope N_scope.
 
-Record fixed_block := {
-  fb_header : bytes;                     (* the header item as received (not exposed by the API; hashed) *)
-  fb_bodies : list (bytes * bytes);      (* (original_bytes, tx_hash) of every transaction body *)
-  fb_hash : bytes                        (* block_hash *)
-}.
-
-Section Block.
-  Variable H : bytes -> bytes.
-
-  (* FixedTransactionBodies::deserialize *)
-  Definition decode_fixed_bodies : parser (list (bytes * bytes)) := fun bs =>
-    let* '(ln, r) := rd_array bs in
-    dec_elems (decode_fixed_body H) (S (length r)) ln 0 r.
-
-  (* one item that must be an array (raw.array() then its elements) *)
-  Definition raw_array : parser bytes := fun bs =>
-    let* t := cbor_type bs in if t =? 4 then raw_item bs else Err.
-
-  (* deserialize_block: [header, bodies, witness sets, auxiliary data set, (invalid transactions)] *)
-  Definition dec_block (whole_block_hash : bool) : parser fixed_block := fun bs =>
-    let* '(ln, r0) := rd_array bs in
-    if (match ln with Arg n => n <? 4 | Indef => false end) then Err else      (* read_elems(4) *)
-    let* '(hdr, r1) := raw_item r0 in
-    let* '(bodies, r2) := decode_fixed_bodies r1 in
-    let* '(_, r3) := raw_array r2 in                     (* TransactionWitnessSets *)
-    let* '(_, r4) := raw_item r3 in                      (* AuxiliaryDataSet *)
-    let* present := (match ln with
-                     | Indef => let* t := cbor_type r4 in Ok (t =? 4)
-                     | Arg n => Ok (negb (n =? 4))
-                     end) in
-    let* r5 := (if present then
-                  (* read_elems(1) + finish(): a definite length must then be exactly 5 *)
-                  if (match ln with Arg n => negb (n =? 5) | Indef => false end) then Err
-                  else let* '(_, r) := raw_array r4 in Ok r
-                else Ok r4) in
-    let* r6 := close_len ln r5 in
-    Ok ({| fb_header := hdr; fb_bodies := bodies;
-           fb_hash := H (if whole_block_hash then firstn (length bs - length r6) bs else hdr) |}, r6).
-
-  (* FixedBlock::deserialize as repaired (hash of the header) and as it was (hash of the whole block) *)
-  Definition decode_fixed_block : parser fixed_block := dec_block false.
-  Definition decode_fixed_block_old : parser fixed_block := dec_block true.
-
-  (* FixedVersionedBlock::deserialize: [era code (u32), block] *)
-  Definition decode_versioned_block : parser (N * fixed_block) := fun bs =>
-    let* '(ln, r0) := rd_array bs in
-    let* _ := check_len ln 2 in
-    let* '(era, r1) := rd_uint r0 in
-    if 4294967295 <? era then Err else
-    let* '(b, r2) := decode_fixed_block r1 in
-    let* r3 := close_len ln r2 in
-    Ok ((era, b), r3).
-End Block.
-
-(* FixedVersionedBlock::era as the enum's discriminant: Byron 0 (codes 0, 1), Shelley 1, ..., Conway 6, Unknown 7 *)
-Definition era_of (code : N) : N :=
-  if code <=? 1 then 0 else if code <=? 7 then code - 1 else 7.
-
 (* ------------------------------------------------------------------ specification side (generic reading) *)
 (* the element slices of a CBOR array *)
 Fixpoint slices_n (k : nat) (bs : bytes) : option (list bytes * bytes) :=
@@ -99,6 +41,71 @@ Definition array_slices (bs : bytes) : option (list bytes * bytes) :=
   | Some (4, Indef, r) => slices_brk (length r) r
   | _ => None
   end.
+
+
+Definition count_elems (arr : bytes) : nat :=
+  match array_slices arr with Some (xs, _) => length xs | None => O end.
+
+Record fixed_block := {
+  fb_header : bytes;                     (* the header item as received (not exposed by the API; hashed) *)
+  fb_bodies : list (bytes * bytes);      (* (original_bytes, tx_hash) of every transaction body *)
+  fb_hash : bytes;                       (* block_hash *)
+  fb_nwits : nat;                        (* transaction_witness_sets().len() *)
+  fb_ninvalid : nat                      (* invalid_transactions().len() *)
+}.
+
+Section Block.
+  Variable H : bytes -> bytes.
+
+  (* FixedTransactionBodies::deserialize *)
+  Definition decode_fixed_bodies : parser (list (bytes * bytes)) := fun bs =>
+    let* '(ln, r) := rd_array bs in
+    dec_elems (decode_fixed_body H) (S (length r)) ln 0 r.
+
+  (* one item that must be an array (raw.array() then its elements) *)
+  Definition raw_array : parser bytes := fun bs =>
+    let* t := cbor_type bs in if t =? 4 then raw_item bs else Err.
+
+  (* deserialize_block: [header, bodies, witness sets, auxiliary data set, (invalid transactions)] *)
+  Definition dec_block (whole_block_hash : bool) : parser fixed_block := fun bs =>
+    let* '(ln, r0) := rd_array bs in
+    if (match ln with Arg n => n <? 4 | Indef => false end) then Err else      (* read_elems(4) *)
+    let* '(hdr, r1) := raw_item r0 in
+    let* '(bodies, r2) := decode_fixed_bodies r1 in
+    let* '(ws, r3) := raw_array r2 in                    (* TransactionWitnessSets *)
+    let* '(_, r4) := raw_item r3 in                      (* AuxiliaryDataSet *)
+    let* present := (match ln with
+                     | Indef => let* t := cbor_type r4 in Ok (t =? 4)
+                     | Arg n => Ok (negb (n =? 4))
+                     end) in
+    let* '(iv, r5) := (if present then
+                  (* read_elems(1) + finish(): a definite length must then be exactly 5 *)
+                  if (match ln with Arg n => negb (n =? 5) | Indef => false end) then Err
+                  else let* '(x, r) := raw_array r4 in Ok (count_elems x, r)
+                else Ok (O, r4)) in
+    let* r6 := close_len ln r5 in
+    Ok ({| fb_header := hdr; fb_bodies := bodies;
+           fb_hash := H (if whole_block_hash then firstn (length bs - length r6) bs else hdr);
+           fb_nwits := count_elems ws; fb_ninvalid := iv |}, r6).
+
+  (* FixedBlock::deserialize as repaired (hash of the header) and as it was (hash of the whole block) *)
+  Definition decode_fixed_block : parser fixed_block := dec_block false.
+  Definition decode_fixed_block_old : parser fixed_block := dec_block true.
+
+  (* FixedVersionedBlock::deserialize: [era code (u32), block] *)
+  Definition decode_versioned_block : parser (N * fixed_block) := fun bs =>
+    let* '(ln, r0) := rd_array bs in
+    let* _ := check_len ln 2 in
+    let* '(era, r1) := rd_uint r0 in
+    if 4294967295 <? era then Err else
+    let* '(b, r2) := decode_fixed_block r1 in
+    let* r3 := close_len ln r2 in
+    Ok ((era, b), r3).
+End Block.
+
+(* FixedVersionedBlock::era as the enum's discriminant: Byron 0 (codes 0, 1), Shelley 1, ..., Conway 6, Unknown 7 *)
+Definition era_of (code : N) : N :=
+  if code <=? 1 then 0 else if code <=? 7 then code - 1 else 7.
 
 (* what the implementation reported for a block: the original bytes of every body, whether each tx hash is
    Blake2b-256 of them (computed outside the library), the bytes the block hash is Blake2b-256 of *)
